@@ -9,6 +9,9 @@ import (
 	"google.golang.org/protobuf/reflect/protoreflect"
 	"google.golang.org/protobuf/types/pluginpb"
 
+	sebufhttp "github.com/SebastienMelki/sebuf/http"
+
+	"verif/internal/corpus"
 	"verif/internal/model/jsonmap"
 	"verif/internal/oas"
 	"verif/internal/plugin"
@@ -374,6 +377,49 @@ func c18doc(c *Ctx, caseID string, d *oas.Doc, svcName string, svcs []protorefle
 		}
 		if sd.Methods().Len() != len(d.Ops()) {
 			c.R.Violate(caseID, "operation-count", fmt.Sprintf("rpcs=%d operations=%d", sd.Methods().Len(), len(d.Ops())), rp(map[string]any{"service": svcName}))
+		}
+		// every operation declares exactly the URL-bound parameters of its own RPC (explicit paths
+		// and bodiless verbs only: default paths and query fields on body verbs are C03's findings)
+		for i := 0; i < sd.Methods().Len(); i++ {
+			m := sd.Methods().Get(i)
+			cfg, _ := proto.GetExtension(m.Options(), sebufhttp.E_Config).(*sebufhttp.HttpConfig)
+			if cfg == nil || cfg.GetPath() == "" {
+				continue
+			}
+			verb := strings.TrimPrefix(cfg.GetMethod().String(), "HTTP_METHOD_")
+			if verb == "UNSPECIFIED" {
+				verb = "POST"
+			}
+			var base *string
+			if sc, _ := proto.GetExtension(sd.Options(), sebufhttp.E_ServiceConfig).(*sebufhttp.ServiceConfig); sc != nil && sc.GetBasePath() != "" {
+				b := sc.GetBasePath()
+				base = &b
+			}
+			tmpl := corpus.JoinDoc(base, cfg.GetPath())
+			wantQ := map[string]bool{}
+			for j := 0; j < m.Input().Fields().Len(); j++ {
+				if q, _ := proto.GetExtension(m.Input().Fields().Get(j).Options(), sebufhttp.E_Query).(*sebufhttp.QueryConfig); q != nil && q.GetName() != "" {
+					wantQ[q.GetName()] = true
+				}
+			}
+			for _, op := range d.Ops() {
+				if op.Path != tmpl || op.Verb != verb {
+					continue
+				}
+				if verb != "GET" && verb != "DELETE" {
+					continue
+				}
+				gotQ := map[string]bool{}
+				for _, p := range op.Params {
+					if p.In == "query" {
+						gotQ[p.Name] = true
+					}
+				}
+				if strings.Join(spec.SortedKeys(gotQ), ",") != strings.Join(spec.SortedKeys(wantQ), ",") {
+					c.R.Violate(caseID, "query-parameters-differ", "", rp(map[string]any{"rpc": string(m.FullName()), "path": op.Path, "declared_in_document": spec.SortedKeys(gotQ), "annotated_on_request_fields": spec.SortedKeys(wantQ)}))
+				}
+				c.R.Count("operations_matched_to_rpc", 1)
+			}
 		}
 		schemas := d.Schemas()
 		for full, md := range reachable(sd) {
